@@ -432,6 +432,17 @@ DJV_CMD(sv_mut, "sv.mut")
         {
             load = name_of(loaded);
             pub = outcome([&] { db->verify(); });
+            // verify() is an observer: asked again through the same handle it must give the same verdict (a verdict
+            // remembered from — or wrongly recorded by — the first call would show here)
+            for (int again = 0; again < 2; ++again)
+            {
+                auto pub2 = outcome([&] { db->verify(); });
+                if (pub2 != pub)
+                {
+                    pub = "unstable:" + pub + "/" + pub2;
+                    break;
+                }
+            }
         }
     }
     // the validator of the base schema on the library's own kind of connection
